@@ -311,3 +311,39 @@ func L6() []*Grammar {
 	})
 	return gs
 }
+
+// L7: wide patterns - tokens with 10-12 alternatives or 10-12 terms (positions with two digits).
+func L7() []*Grammar {
+	var gs []*Grammar
+	lit := func(i int) *Pat { return Lit(rune('a' + i)) }
+	for _, n := range []int{10, 11, 12} {
+		// n alternatives, the second one two characters long
+		var alts []*Pat
+		for i := 0; i < n; i++ {
+			if i == 1 {
+				alts = append(alts, Seq(lit(1), lit(1)))
+			} else {
+				alts = append(alts, lit(i))
+			}
+		}
+		gs = append(gs, &Grammar{Lex: []LexDef{{"t", "tok", AltP(alts...)}}})
+		gs = append(gs, &Grammar{Lex: []LexDef{{"t", "tok", AltP(alts...)}, {"u", "tok", Seq(lit(1), lit(2))}}})
+		// n alternatives inside a group followed by more
+		gs = append(gs, &Grammar{Lex: []LexDef{{"t", "tok", Seq(AltP(alts...), lit(0))}}})
+		// n terms in sequence, with an optional and a repeated part in the middle
+		var terms []*Pat
+		for i := 0; i < n; i++ {
+			switch i {
+			case 2:
+				terms = append(terms, Opt(lit(i)))
+			case n - 2:
+				terms = append(terms, Rep(lit(i)))
+			default:
+				terms = append(terms, lit(i%3))
+			}
+		}
+		gs = append(gs, &Grammar{Lex: []LexDef{{"t", "tok", Seq(terms...)}}})
+		gs = append(gs, &Grammar{Lex: []LexDef{{"t", "tok", Seq(terms...)}, {"!w", "ign", Seq(lit(0), lit(1))}}})
+	}
+	return gs
+}
